@@ -25,7 +25,7 @@ WHY = {
     "C17-r5-m1": ("nested contexts always used a different (decoy) filter", "context stack machine: enter / exit / evaluate sequences with the same filter object re-entered (C17)"),
     "C19-r5-m1": ("the history alphabet had no two value clauses differing only in 1 / true", "value clauses over {1, true, 1.0, 0, false, '1', 'true'} in the translation histories (C19)"),
     "C19-r5-m2": ("the character alphabet had no non-printable astral character", "17 rare characters x 9 shapes in every literal position (C19)"),
-    "C16-r5-m1": ("", ""), "C16-r5-m2": ("", ""),
+    "C16-r5-m1": ("a class-level threading.RLock held by a switched-away thread blocked the cooperative scheduler (no verdict within 50 minutes)", "cooperative stand-ins for the library's locks; at most 12 re-confirmations per configuration (E3)"),
 }
 
 
@@ -35,7 +35,7 @@ def cell(s, n):
 
 
 def main():
-    rows, missed = [], []
+    rows, missed = [], []  # noqa
     for d in sorted(glob.glob(os.path.join(VERIF, "seeded", "*-r5-*"))):
         name = os.path.basename(d)
         m = json.load(open(os.path.join(d, "meta.json")))
